@@ -59,6 +59,14 @@ type Case struct {
 	// every connection, without ticket keys of its own: documented to use the keys of the original
 	// Config ("Otherwise, the original Config keys will be used"), so the model is unchanged.
 	PerConn bool `json:"per_conn,omitempty"`
+	// CloneServe: the connections are served by a Clone() of the Config taken once the initial
+	// keys are set; "rotate" operations then go to the ORIGINAL Config and must not touch the
+	// clone (the model's key list stays as it was).
+	CloneServe bool `json:"clone_serve,omitempty"`
+	// ClientAuth 1 / 2 (RequestClientCert / RequireAnyClientCert): the client presents a
+	// certificate in every handshake, so the session carries client certificates; the same
+	// Config must resume its own tickets as before.
+	ClientAuth int `json:"client_auth,omitempty"`
 }
 
 const (
@@ -130,6 +138,7 @@ type world struct {
 	r      *kit.R
 	clock  int64 // seconds after tlskit.Now
 	sc, fc *tls.Config
+	orig   *tls.Config // CloneServe: the Config that w.sc was cloned from
 	cache  *cache
 	keys   []int // current explicit key list; nil = auto-managed
 	st     ticketState
@@ -162,6 +171,7 @@ func (w *world) serverConfig(foreign bool) *tls.Config {
 		if w.c.Version != tlsgen.TLS13 {
 			cfg.CipherSuites = []uint16{w.c.Suite, altSuite(w.c.Suite), fallbackSuite(w.c.Suite)}
 		}
+		cfg.ClientAuth = tls.ClientAuthType(w.c.ClientAuth)
 		return cfg
 	}
 	cfg := base()
@@ -224,6 +234,10 @@ func (w *world) clientConfig(ch *cache, dropSuite, lowerVersion bool) *tls.Confi
 	cfg := cl.Config(tlsgen.Identity(w.c.SKey).Roots)
 	cfg.Time = w.now
 	cfg.ClientSessionCache = ch
+	if w.c.ClientAuth != 0 {
+		cert := tlsgen.Identity("ecP-256-1").Cert
+		cfg.GetClientCertificate = func(*tls.CertificateRequestInfo) (*tls.Certificate, error) { return &cert, nil }
+	}
 	w.conn++
 	cfg.Rand = tlsgen.NewRand(w.c.Seed, 1, uint64(w.conn))
 	return cfg
@@ -353,9 +367,19 @@ func sha384Suite(id uint16) bool { s, ok := tlsgen.Info(id); return ok && s.SHA3
 func check(c Case, r *kit.R) {
 	w := &world{c: c, r: r, cache: newCache()}
 	w.sc = w.serverConfig(false)
+	if w.c.CloneServe {
+		w.orig = w.sc
+		w.sc = w.sc.Clone()
+	}
 	r.Class(fmt.Sprintf("v=%x keys=%s", c.Version, c.KeyMode))
 	if c.PerConn {
 		r.Class("per-connection config (GetConfigForClient)")
+	}
+	if c.CloneServe {
+		r.Class("served by a Clone of the Config")
+	}
+	if c.ClientAuth != 0 {
+		r.Class(fmt.Sprintf("session with client certificate (ClientAuth %d)", c.ClientAuth))
 	}
 
 	// ---- initial full handshake ---------------------------------------------
@@ -390,6 +414,13 @@ func check(c Case, r *kit.R) {
 				w.clock += op.Seconds
 				w.mu.Unlock()
 			case "rotate":
+				if w.orig != nil {
+					// the serving Config is a clone: its keys are its own
+					w.orig.SetSessionTicketKeys(keyBytes(op.Keys))
+					w.r.Class("rotation of the original Config after Clone")
+					nontrivial = true
+					break
+				}
 				w.sc.SetSessionTicketKeys(keyBytes(op.Keys))
 				w.keys = append([]int{}, op.Keys...)
 				nontrivial = true
@@ -625,6 +656,10 @@ func ticketLen(b base) int {
 	}
 	w := &world{c: Case{Version: b.version, Suite: b.suite, SKey: b.skey, KeyMode: "explicit", InitKeys: []int{1}}, cache: newCache()}
 	w.sc = w.serverConfig(false)
+	if w.c.CloneServe {
+		w.orig = w.sc
+		w.sc = w.sc.Clone()
+	}
 	out := handshake(w.clientConfig(w.cache, false, false), w.sc)
 	s := w.cache.peek(tlsgen.ServerName)
 	if !out.complete || s == nil {
@@ -733,6 +768,8 @@ func gen(t *rapid.T) Case {
 	}
 	c.KeyMode = rapid.SampledFrom([]string{"explicit", "explicit", "legacy", "auto"}).Draw(t, "keymode")
 	c.PerConn = rapid.IntRange(0, 3).Draw(t, "per-conn") == 0
+	c.CloneServe = rapid.IntRange(0, 3).Draw(t, "clone-serve") == 0
+	c.ClientAuth = rapid.SampledFrom([]int{0, 0, 0, 1, 2}).Draw(t, "client-auth")
 	switch c.KeyMode {
 	case "explicit":
 		c.InitKeys = genKeys(t, "init", nil)
@@ -765,5 +802,5 @@ func gen(t *rapid.T) Case {
 
 func TestPropHistories(t *testing.T) {
 	kit.Run(t, kit.Spec[Case]{ID: "C31", Name: "histories", Check: check, Gen: gen, Quick: 2000, Thorough: 30000,
-		Rule: "histories: server ticket keys explicit (SetSessionTicketKeys, 1-4 keys) / legacy SessionTicketKey / automatic, the Config used directly or (1 in 4) through a GetConfigForClient callback that returns a key-less Config per connection; initial full handshake at TLS 1.0-1.3; then 1-3 rounds of up to 3 operations {rotate keys (keep / drop / reorder / append), advance both clocks (1h..8d), edit the cached ticket, splice in a foreign server's ticket / key name / whole session, splice in another session's ticket / whole session from the same server, stop offering the session's suite, lower the client's maximum version} followed by a handshake, compared with a model of which ticket the cache holds, which key issued it and which keys the server currently has. Non-trivial: history with an edited, spliced or rotated ticket; distinct by case hash"})
+		Rule: "histories: server ticket keys explicit (SetSessionTicketKeys, 1-4 keys) / legacy SessionTicketKey / automatic, the Config used directly or (1 in 4) through a GetConfigForClient callback that returns a key-less Config per connection; (1 in 4) served by a Clone() of the Config while key rotations go to the original; (2 in 5) ClientAuth RequestClientCert / RequireAnyClientCert with a client that presents a certificate; initial full handshake at TLS 1.0-1.3; then 1-3 rounds of up to 3 operations {rotate keys (keep / drop / reorder / append), advance both clocks (1h..8d), edit the cached ticket, splice in a foreign server's ticket / key name / whole session, splice in another session's ticket / whole session from the same server, stop offering the session's suite, lower the client's maximum version} followed by a handshake, compared with a model of which ticket the cache holds, which key issued it and which keys the server currently has. Non-trivial: history with an edited, spliced or rotated ticket; distinct by case hash"})
 }
